@@ -232,7 +232,7 @@ namespace pika::concurrency::detail {
             node_pointer prev = lrs.get_left_ptr()->right.load(std::memory_order_acquire);
 
 #if defined(PIKA_VERIF)
-            PIKA_VERIF_POINT(1714, this, (std::uint64_t) (0), 5);
+            PIKA_VERIF_POINT(1714, this, (std::uint64_t) (lrs.get_right_tag()), 5);
 #endif
             if (anchor_ != lrs) return;
 
@@ -247,7 +247,7 @@ namespace pika::concurrency::detail {
             if (prevnext.get_ptr() != lrs.get_left_ptr())
             {
 #if defined(PIKA_VERIF)
-                PIKA_VERIF_POINT(1714, this, (std::uint64_t) (0), 5);
+                PIKA_VERIF_POINT(1714, this, (std::uint64_t) (lrs.get_right_tag()), 5);
 #endif
                 if (anchor_ != lrs) return;
 
@@ -262,7 +262,7 @@ namespace pika::concurrency::detail {
             }
             // Try to update the anchor, modifying the status and ABA tag.
 #if defined(PIKA_VERIF)
-            PIKA_VERIF_POINT(1718, this, (std::uint64_t) (0), 5);
+            PIKA_VERIF_POINT(1718, this, (std::uint64_t) (lrs.get_right_tag()), 5);
 #endif
             anchor_.cas(lrs,
                 anchor_pair(
@@ -279,7 +279,7 @@ namespace pika::concurrency::detail {
             node_pointer prev = lrs.get_right_ptr()->left.load(std::memory_order_acquire);
 
 #if defined(PIKA_VERIF)
-            PIKA_VERIF_POINT(1714, this, (std::uint64_t) (0), 6);
+            PIKA_VERIF_POINT(1714, this, (std::uint64_t) (lrs.get_right_tag()), 6);
 #endif
             if (anchor_ != lrs) return;
 
@@ -294,7 +294,7 @@ namespace pika::concurrency::detail {
             if (prevnext.get_ptr() != lrs.get_right_ptr())
             {
 #if defined(PIKA_VERIF)
-                PIKA_VERIF_POINT(1714, this, (std::uint64_t) (0), 6);
+                PIKA_VERIF_POINT(1714, this, (std::uint64_t) (lrs.get_right_tag()), 6);
 #endif
                 if (anchor_ != lrs) return;
 
@@ -309,7 +309,7 @@ namespace pika::concurrency::detail {
             }
             // Try to update the anchor, modifying the status and ABA tag.
 #if defined(PIKA_VERIF)
-            PIKA_VERIF_POINT(1718, this, (std::uint64_t) (0), 6);
+            PIKA_VERIF_POINT(1718, this, (std::uint64_t) (lrs.get_right_tag()), 6);
 #endif
             anchor_.cas(lrs,
                 anchor_pair(
@@ -386,7 +386,7 @@ namespace pika::concurrency::detail {
                     // points to the new node as both its leftmost and rightmost
                     // element.
 #if defined(PIKA_VERIF)
-                    PIKA_VERIF_POINT(1718, this, (std::uint64_t) (0), 1);
+                    PIKA_VERIF_POINT(1718, this, (std::uint64_t) (lrs.get_right_tag()), 1);
 #endif
                     if (anchor_.cas(
                             lrs, anchor_pair(n, n, lrs.get_left_tag(), lrs.get_right_tag() + 1)))
@@ -409,7 +409,7 @@ namespace pika::concurrency::detail {
                     anchor_pair new_anchor(n, lrs.get_right_ptr(), lpush, lrs.get_right_tag() + 1);
 
 #if defined(PIKA_VERIF)
-                    PIKA_VERIF_POINT(1718, this, (std::uint64_t) (0), 1);
+                    PIKA_VERIF_POINT(1718, this, (std::uint64_t) (lrs.get_right_tag()), 1);
 #endif
                     if (anchor_.cas(lrs, new_anchor))
                     {
@@ -453,7 +453,7 @@ namespace pika::concurrency::detail {
                     // points to the new node as both its leftmost and rightmost
                     // element.
 #if defined(PIKA_VERIF)
-                    PIKA_VERIF_POINT(1718, this, (std::uint64_t) (0), 2);
+                    PIKA_VERIF_POINT(1718, this, (std::uint64_t) (lrs.get_right_tag()), 2);
 #endif
                     if (anchor_.cas(
                             lrs, anchor_pair(n, n, lrs.get_left_tag(), lrs.get_right_tag() + 1)))
@@ -476,7 +476,7 @@ namespace pika::concurrency::detail {
                     anchor_pair new_anchor(lrs.get_left_ptr(), n, rpush, lrs.get_right_tag() + 1);
 
 #if defined(PIKA_VERIF)
-                    PIKA_VERIF_POINT(1718, this, (std::uint64_t) (0), 2);
+                    PIKA_VERIF_POINT(1718, this, (std::uint64_t) (lrs.get_right_tag()), 2);
 #endif
                     if (anchor_.cas(lrs, new_anchor))
                     {
@@ -514,7 +514,7 @@ namespace pika::concurrency::detail {
                 {
                     // Try to set both anchor pointer
 #if defined(PIKA_VERIF)
-                    PIKA_VERIF_POINT(1718, this, (std::uint64_t) (0), 3);
+                    PIKA_VERIF_POINT(1718, this, (std::uint64_t) (lrs.get_right_tag()), 3);
 #endif
                     if (anchor_.cas(lrs,
                             anchor_pair(
@@ -535,7 +535,7 @@ namespace pika::concurrency::detail {
                 {
                     // Make sure the anchor hasn't changed since we loaded it.
 #if defined(PIKA_VERIF)
-                    PIKA_VERIF_POINT(1714, this, (std::uint64_t) (0), 3);
+                    PIKA_VERIF_POINT(1714, this, (std::uint64_t) (lrs.get_right_tag()), 3);
 #endif
                     if (anchor_ != lrs) continue;
 
@@ -548,7 +548,7 @@ namespace pika::concurrency::detail {
                     // Try to update the anchor to point to prev as the leftmost
                     // node.
 #if defined(PIKA_VERIF)
-                    PIKA_VERIF_POINT(1718, this, (std::uint64_t) (0), 3);
+                    PIKA_VERIF_POINT(1718, this, (std::uint64_t) (lrs.get_right_tag()), 3);
 #endif
                     if (anchor_.cas(lrs,
                             anchor_pair(prev.get_ptr(), lrs.get_right_ptr(), lrs.get_left_tag(),
@@ -595,7 +595,7 @@ namespace pika::concurrency::detail {
                 {
                     // Try to set both anchor pointer
 #if defined(PIKA_VERIF)
-                    PIKA_VERIF_POINT(1718, this, (std::uint64_t) (0), 4);
+                    PIKA_VERIF_POINT(1718, this, (std::uint64_t) (lrs.get_right_tag()), 4);
 #endif
                     if (anchor_.cas(lrs,
                             anchor_pair(
@@ -616,7 +616,7 @@ namespace pika::concurrency::detail {
                 {
                     // Make sure the anchor hasn't changed since we loaded it.
 #if defined(PIKA_VERIF)
-                    PIKA_VERIF_POINT(1714, this, (std::uint64_t) (0), 4);
+                    PIKA_VERIF_POINT(1714, this, (std::uint64_t) (lrs.get_right_tag()), 4);
 #endif
                     if (anchor_ != lrs) continue;
 
@@ -629,7 +629,7 @@ namespace pika::concurrency::detail {
                     // Try to update the anchor to point to prev as the rightmost
                     // node.
 #if defined(PIKA_VERIF)
-                    PIKA_VERIF_POINT(1718, this, (std::uint64_t) (0), 4);
+                    PIKA_VERIF_POINT(1718, this, (std::uint64_t) (lrs.get_right_tag()), 4);
 #endif
                     if (anchor_.cas(lrs,
                             anchor_pair(lrs.get_left_ptr(), prev.get_ptr(), lrs.get_left_tag(),
